@@ -423,9 +423,15 @@ def type_param(rng, name):
     return TC_CODE[tc] if rng.random() < 0.5 and name == tc else name
 
 
+NP_PARAMS = [False]      # per case: boolean encoding parameters are handed over as np.bool_ (what '(x >= 0).all()' gives)
+
+
 def mk(spec):
     kind, p = spec
     p = dict(p)
+    if NP_PARAMS[0]:
+        if isinstance(p.get("is_unsigned"), bool):
+            p["is_unsigned"] = np.bool_(p["is_unsigned"])
     if kind == "StringArray":
         if p.get("strings") is not None:
             p["strings"] = np.array(p["strings"], dtype=np.str_)
@@ -1061,6 +1067,24 @@ def data_level(ctx, x, chain, judge_array, exact):
         ctx.fail("data_serialize_roundtrip", "encodings read back differ: %s vs %s" % (_short(back.encoding), _short(chain)))
     if exact and not (back == d and d == back):
         ctx.fail("data_serialize_roundtrip", "BinaryCIFData read back compares unequal although arrays and encodings agree")
+    if exact and isinstance(d.array, np.ndarray) and d.array.ndim == 1 and len(d.array) >= 2 and (ctx.index or 0) % 3 == 0:
+        # the object has been serialised once; its array is then edited in place (reversed) and it is serialised again:
+        # the second serialisation holds the values of that moment
+        rev = np.array(d.array[::-1])
+        if not np.array_equal(rev, d.array) and d.array.flags.writeable:
+            d.array[...] = rev
+            ctx.op("BinaryCIFData.serialize_after_edit")
+            try:
+                ser2 = d.serialize()
+            except (ValueError, OverflowError, IndexError) as ex:
+                ctx.exc(ex)
+                ctx.note("reversed_array_not_encodable_with_this_chain")
+                return
+            back2 = pdbx.BinaryCIFData.deserialize(pack(ser2))
+            ctx.oracle("data_serialize_roundtrip")
+            if not np.array_equal(np.asarray(back2.array), rev):
+                ctx.fail("data_serialize_roundtrip", "array edited in place after a first serialize(): the second serialisation decodes to %s, "
+                         "the object holds %s" % (_short(np.asarray(back2.array)), _short(rev)))
 
 
 def case_chain(rng, ctx):
@@ -1760,6 +1784,7 @@ _CASES = {
 
 
 def run_case(stratum, rng, ctx):
+    NP_PARAMS[0] = (ctx.index or 0) % 4 == 1
     _CTX[0] = ctx
     _CASES[stratum](rng, ctx)
 
